@@ -14,8 +14,8 @@ type fgen struct {
 	maxAtoms int
 	maxDepth int
 	maxWidth int
-	quant    bool // allow nested/atLeast/atMost
-	edges    int  // number of edge properties e0..e(edges-1)
+	quant    bool  // allow nested/atLeast/atMost
+	edges    int   // number of edge properties e0..e(edges-1)
 	rows     []int // allowed rows of the atom table (nil = all)
 	budget   int   // remaining formula nodes (connectives + leaves); <=0 forces single-atom leaves
 	multiPC  bool  // bias leaves towards several constraints (and several quantifiers) in one propertyConstraints map
